@@ -25,6 +25,14 @@ CLAIMED = {
         design_ref="DESIGN.md §2 C02",
         engine="p-stm",
     ),
+    "C05": dict(
+        category="exploration",
+        text="Every entry point of a 32-row wire table (mithril-stm from_bytes incl. the legacy layouts, serde JSON, every ProtocolKey string codec in both orders, MKProof / MKMapProof bincode, OpCert bytes, API messages plus their conversion into entities) is fed honest encodings (two registrations, legacy layouts packed by the harness, the repository's golden key strings, Dummy messages) and 60k structure-aware mutations of them (truncation, every 8-byte big-endian field set to 0/1/+1/2^32/2^56-1/2^63/2^64-1, version byte, splices, CBOR length-header inflation, hex damage, JSON number extremes, array growth, type swaps, nested key strings, deep nesting). In-check oracle: Ok or Err only (panics and, thanks to overflow checks, arithmetic overflows are caught), largest single allocation <= 64*len+16 MiB (counting global allocator), accepted input re-encodes to a fixed point, honest encodings accepted. libFuzzer targets over the same table (harness/fuzz) extend the search coverage-guided in the thorough tier. Found and (after repair) guards four genuine defects.",
+        note="Harness built with overflow checks + debug assertions (an overflow is a panic here, a silent wrap in production). An allocation the OS refuses aborts the process: the driver then reports exit 2 (inconclusive), the libFuzzer layer pins such inputs as crash artifacts. Random byte strings without structure are left to the fuzz targets.",
+        technique="property-based testing + fuzzing: structure-aware mutation of honest encodings (proptest) and libFuzzer targets with in-target round-trip oracle, counting allocator",
+        design_ref="DESIGN.md §2 C05",
+        engine="p-stm",
+    ),
     "C06": dict(
         category="exploration",
         text="Non-empty subsets of 12 KES-certified fixture signers with generated stakes (incl. equal stakes) and parameters; three independent permutations of the registration order. The aggregate key is computed by the mithril-stm library under two arrival orders, by SignerBuilder (the path signer and aggregator nodes use) on the JSON round-tripped signer list, and by the client's MessageBuilder on the JSON round-tripped stake-distribution message; the key itself goes through json-hex and bytes round trips; one party's node-path signer signs and its slot and signature are checked against the library path; total stake = sum; removing a party, stake +-1 or swapping two unequal stakes must change the key. A differential between independent computation paths under generated orders is exactly what the statement quantifies over.",
@@ -56,6 +64,14 @@ CLAIMED = {
         technique="property-based testing: exhaustive small box + proptest boundary generators against an arithmetic oracle",
         design_ref="DESIGN.md §2 C17",
         engine="p-common",
+    ),
+    "C18": dict(
+        category="exploration",
+        text="Layer 1: 50k model-checked op sequences (acquire, give back item, drop, refresh exactly as compute_cache does it, raw give-backs, reset, count; pool sizes 1-4, real 1 ms timeouts) on the real crate. Layer 2: 100k generated (scripts, interleaving) schedules of the working tree's resource_pool.rs recompiled against shuttle's Mutex/Condvar by a build script (refuses, exit 2, if the sync import is not found exactly once or an unmodelled primitive appears); the interleaving is generated choice data consumed by a custom scheduler, so replays are exact and shrinking minimises preemptions; timeouts are modelled by a timer task. Oracle: the statement itself, evaluated from harness-side generation tags and drop hooks (stale resource served / re-admitted, count > size, waiter still blocked at quiescence with a non-empty pool, deadlock, panic). Found three genuine defects (repaired); silent on the repaired tree, exits 1 on 8 mutants.",
+        note="Trusts shuttle 0.9.3 Mutex/Condvar semantics and the textual rewrite of the sync import; one refresher at a time; timeouts fire only at quiescence; sequentially consistent interleavings at lock/wait/notify granularity (weak-memory effects out of scope). Concurrency is sampled, not exhaustive.",
+        technique="property-based testing: model-based op sequences + controlled-schedule concurrency testing (source recompiled against shuttle, generated schedules)",
+        design_ref="DESIGN.md §2 C18",
+        engine="p-pool",
     ),
 }
 
